@@ -6,7 +6,7 @@ ID = "C15"
 PROPS_FILE = "theories/Props/C15.v"
 ENTRIES = ["entry_relabel", "entry_neighbors", "entry_colors", "entry_euler", "entry_acc",
            "entry_check_euler", "entry_check_neighbors", "entry_check_colors", "entry_check_relabel",
-           "entry_check_acc"]
+           "entry_check_acc", "entry_reduce"]
 EXTRACT = ("theories/Extract/XC15.v", "c15", ENTRIES)
 PYX = {"_cpmorphology2.pyx": ["_all_connected_components"]}
 RULE = ("label images: shapes skewed to 1x1, 1xN, Nx1, 2x2, 3x3 and up to 12x12 (thorough 16x16); contents from random "
@@ -487,6 +487,9 @@ def _forest_certificate(i, j, lab):
     return par, eidx, dep, rep
 
 
+REDUCE_MAX_PIXELS = 400
+
+
 def check(ctx, cases, outs):
     res = [None] * len(cases)
     items = []
@@ -533,6 +536,29 @@ def check(ctx, cases, outs):
     for k, e, _ in items:
         if r[k] != 1:
             res[k] = msg[e]
+    # certificate search (Spec.EulerReduceC15.reduce_label, sound by C15_reduce_label_certifies): when it returns k,
+    # 4 W must be 4 k = 4 (components - holes) by theorem, not only by the flood-fill definition
+    red = []
+    for k, (c, o) in enumerate(zip(cases, outs)):
+        if c["fn"] != "euler" or _bad(o) or o.get("w4") is None or res[k]:
+            continue
+        img, idx = _euler_args(c)
+        if len(img) * len(img[0]) > REDUCE_MAX_PIXELS:
+            ctx.count("euler_reduce_skipped_large")
+            continue
+        for pos, l in enumerate(idx):
+            if l != 0 and l not in idx[:pos]:
+                red.append(((k, pos), "entry_reduce", [img, l]))
+    rr = _run_grouped(ctx, red)
+    for (k, pos), _, _ in red:
+        v = rr[(k, pos)]
+        if isinstance(v, list) and len(v) == 1:
+            ctx.count("euler_certified_reducible")
+            if outs[k]["w4"][pos] != 4 * v[0] and not res[k]:
+                res[k] = ("euler_number differs from 4*(components - holes) = %d certified by a Reduces2 reduction "
+                          "(C15_reduce_label_certifies), label position %d" % (4 * v[0], pos))
+        else:
+            ctx.count("euler_not_certified")
     return res
 
 
